@@ -41,3 +41,46 @@ Definition run_alloc (a : sx) : sx :=
   | SBytes bs => match parse_boc bs with Ok p => SN (p_alloc p) | _ => SA "err" end
   | _ => sx_err "alloc"
   end.
+
+(** DAG input: list of (special mask bits (refs...)) in BOC order *)
+Definition node_of_sx (a : sx) : option node :=
+  match a with
+  | SL [SB special; SN mask; SBits b; SL refs] =>
+      let ty := if special then N_of_bits (firstn 8 b) else 0%N in
+      (* a special cell of type 0 is an ordinary cell for the library *)
+      let special' := special && negb (N.eqb ty 0) in
+      let rs := map (fun r => match r with SN n => N.to_nat n | _ => 0%nat end) refs in
+      Some (mknode special' (if special' then ty else 0%N) mask b rs)
+  | _ => None
+  end.
+
+Fixpoint nodes_of_sx (l : list sx) : option (list node) :=
+  match l with
+  | [] => Some []
+  | a :: t =>
+      match node_of_sx a, nodes_of_sx t with
+      | Some n, Some ns => Some (n :: ns)
+      | _, _ => None
+      end
+  end.
+
+Definition level_info (ri : res imm) (l : nat) : sx :=
+  SL [sx_res SBytes (do c <- ri; imm_hash c l); sx_res SN (do c <- ri; imm_depth c l)].
+
+(* c02.hashes: (dag root) -> ((hash depth) x levels 0..3, level) *)
+Definition run_hashes (a : sx) : sx :=
+  match a with
+  | SL [SL dag; SN root] =>
+      match nodes_of_sx dag with
+      | Some cells =>
+          let imms := eval_dag sha256 0 cells in
+          match nth_error imms (N.to_nat root), nth_error cells (N.to_nat root) with
+          | Some ri, Some nd =>
+              SL [level_info ri 0; level_info ri 1; level_info ri 2; level_info ri 3;
+                  sx_nat (mask_level (n_mask nd))]
+          | _, _ => sx_err "root"
+          end
+      | None => sx_err "dag"
+      end
+  | _ => sx_err "hashes"
+  end.
